@@ -16,7 +16,41 @@ impl DevModel for InDev {
 }
 type In = VirtIOInput<THal<N>, MT<InDev>>;
 
-// @harness props=C08,C09 tier=quick timeout=2400
+// Quick variant: `VirtQueue::add` is replaced by a stub that only counts the calls and returns consecutive tokens
+// (the 32 real `add` calls are what makes `c08_input_new` take 8 minutes).  The stub's contract - add() does not
+// touch the transport - is what C01 establishes for the real function; everything C08 is about (reset, status
+// bits, feature words, queue_set calls, DRIVER_OK before the first notification) runs on the real code.
+static mut STUB_ADDS: u16 = 0;
+impl<H: crate::hal::Hal, const SIZE: usize> crate::queue::VirtQueue<H, SIZE> {
+    unsafe fn stub_add<'a, 'b>(&mut self, inputs: &'a [&'b [u8]], outputs: &'a mut [&'b mut [u8]]) -> crate::Result<u16> {
+        assert!(!(inputs.is_empty() && outputs.is_empty()), "harness: empty add");
+        let t = STUB_ADDS;
+        STUB_ADDS += 1;
+        Ok(t)
+    }
+}
+
+// @harness props=C08 tier=quick timeout=1200 stubbed=queue-add
+#[kani::proof]
+#[kani::stub(crate::queue::VirtQueue::add, crate::queue::VirtQueue::stub_add)]
+#[kani::unwind(50)]
+fn c08_input_new_handshake() {
+    lg_init_concrete();
+    let offered: u64 = kani::any();
+    kani::assume(offered & (1 << 28) == 0);
+    let t = mt::<InDev>(DeviceType::Input, offered);
+    let r = VirtIOInput::<THal<N>, MT<InDev>>::new(t);
+    assert!(r.is_ok(), "C08: construction must succeed when nothing fails");
+    let inp = r.unwrap();
+    let w = check_handshake(offered, SUPPORTED_FEATURES.bits(), 2);
+    assert!(q_flags(&inp.event_queue) == (false, w & (1 << 29) != 0, w & (1 << 33) != 0), "C08: queue mechanisms must follow the negotiated features");
+    assert!(unsafe { STUB_ADDS } == N as u16, "C08: one event buffer per queue entry offered during construction");
+    core::mem::forget(inp);
+    kani::cover!(offered & (1 << 29) != 0);
+    kani::cover!(offered == 0);
+}
+
+// @harness props=C08 tier=thorough timeout=2400
 #[kani::proof]
 #[kani::unwind(50)]
 fn c08_input_new() {
@@ -117,7 +151,15 @@ fn c07_input_hostile_used() {
 }
 
 // failed construction: the k-th DMA allocation fails (C09)
-// @harness props=C09 tier=quick timeout=2400
+// Quick variant with `VirtQueue::add` stubbed as in c08_input_new_handshake (the failure path of new() never
+// looks at what add() did: it drops the queues and the transport).
+// @harness props=C09 tier=quick timeout=1200 stubbed=queue-add
+#[kani::proof]
+#[kani::stub(crate::queue::VirtQueue::add, crate::queue::VirtQueue::stub_add)]
+#[kani::unwind(50)]
+fn c09_input_fail_k3_stubadd() { input_fail_body(3) }
+
+// @harness props=C09 tier=thorough timeout=2400
 #[kani::proof]
 #[kani::unwind(50)]
 fn c09_input_fail_k3() { input_fail_body(3) }
